@@ -34,7 +34,7 @@ def dtype_queries(cfg):
             "H5Tget_order": 1 if cfg.order == ">" else 0, "H5Tget_precision": 8 * cfg.size, "H5Tget_offset": 0}
 
 
-def env(cfg, seq=0, init_ts=0, uuid="verif-uuid", clock=0):
+def env(cfg, seq=0, init_ts=0, uuid="verif-12345678-90ab-cdef-1234-567890abcdef-session-A", clock=0):
     f = {"num_subchannels": cfg.nsub, "is_complex": int(cfg.is_complex), "subdir_cadence_secs": cfg.sc,
          "file_cadence_millisecs": cfg.fc, "is_continuous": int(cfg.cont), "sample_rate_numerator": cfg.n,
          "sample_rate_denominator": cfg.d, "init_utc_timestamp": init_ts, "present_seq": seq}
